@@ -22,7 +22,7 @@ def simulate(name, n, seed, kind="c", maxfuncs=5, maxbody=25, maxdepth=3, exprle
     jobs = []
     for j in range(procs):
         cfg = tlc.cfg_text(spec="VSpec" if withviol else "Spec", constants=consts(maxfuncs, maxbody, maxdepth, exprlevel, True, kind, withviol),
-                           invariants=INV + (["OneViolationInv"] if withviol else []))
+                           invariants=INV + (["OneViolationInv"] if withviol else ["EngineAgrees"]))
         jobs.append(dict(name=f"{name}-{j}", root="ViolMC" if withviol else "NormMC", defs={}, cfg=cfg, workers=1, timeout=1800,
                          simulate=f"num={per}", depth=depth, seed=seed * 1000 + j))
     rs = tlc.run_many(jobs)
@@ -38,7 +38,7 @@ def exhaustive(name, kind="c", maxfuncs=1, maxbody=5, maxdepth=2, withviol=False
     sel = selmod > 1 and not withviol
     cfg = tlc.cfg_text(spec="VSpec" if withviol else "Spec",
                        constants=consts(maxfuncs, maxbody, maxdepth, 0, False, kind, withviol) + ([f"XSelMod = {selmod}"] if sel else []),
-                       invariants=INV + (["OneViolationInv"] if withviol else []))
+                       invariants=INV + (["OneViolationInv"] if withviol else ["EngineAgrees"]))
     r = tlc.run(name=name, root="ViolMC" if withviol else ("NormSelMC" if sel else "NormMC"), defs={}, cfg=cfg, workers=16, timeout=3000)
     return [r], r.exports
 
